@@ -20,14 +20,14 @@ pub fn def() -> PropDef {
     PropDef {
         id: "C08",
         level: "model_checking",
-        rule: "(a) every ordered pair of reachable states x parameter setting is reconciled three times — in-memory redb, file-backed redb, and a BTreeMap reference backend driven by the crate's own process_message/put through the adapter hook — and the serialized message transcripts and final sets must be identical; (b) for every reachable state (with two neighbouring documents present in the same store) and every range (x,y) over a 24-point identifier lattice (x<y, x>y, x=y), get_range / get_range_len / get_fingerprint / get_first / prefixes_of / remove_prefix_filtered of the real StoreInstance are compared with the ordered-map definitions; non-trivial (a) = non-trivial pair as in C01, (b) = non-empty state",
+        rule: "(a) every ordered pair of reachable states x parameter setting is reconciled three times — in-memory redb, file-backed redb, and a BTreeMap reference backend driven by the crate's own process_message/put through the adapter hook — and the serialized message transcripts and final sets must be identical; (b) for every reachable state (with two neighbouring documents present in the same store) and every range (x,y) over a 28-point identifier lattice (x<y, x>y, x=y), get_range / get_range_len / get_fingerprint / get_first / prefixes_of / remove_prefix_filtered of the real StoreInstance are compared with the ordered-map definitions; non-trivial (a) = non-trivial pair as in C01, (b) = non-empty state",
         assumptions: &[
             "the reference backend is the set-theoretic definition (range membership with wrap-around, byte-prefix, XOR of entry fingerprints) in ascending identifier order, as the crate's own test stand-in does",
             "ranges are taken inside the document's namespace (plus the all-zero default identifier as (d,d)); ranges spanning foreign namespaces are not produced by honest peers and are outside the statement",
         ],
         bound: |t| match t {
-            Tier::Quick => json!({"a": "S12<=2 all ordered pairs, default parameters on 3 backends; non-trivial pairs also (1,3),(2,2),(3,4)", "b": "S12<=3 states on memory, S12<=2 on file; 24x24 ranges; prefix removal for 24 prefixes x 3 predicates on S12<=2"}),
-            Tier::Thorough => json!({"a": "S24<=2 all ordered pairs x 4 parameter settings x 3 backends; large family base<->variant", "b": "S16<=3 and large-family states on both backends; 24x24 ranges; prefix removal 24 prefixes x 3 predicates"}),
+            Tier::Quick => json!({"a": "S12<=2 all ordered pairs, default parameters on 3 backends; non-trivial pairs also (1,3),(2,2),(3,4)", "b": "S12<=3 states on memory, S12<=2 on file; 28x28 ranges; prefix removal for 28 prefixes x 3 predicates on S12<=2"}),
+            Tier::Thorough => json!({"a": "S24<=2 all ordered pairs x 4 parameter settings x 3 backends; large family base<->variant", "b": "S16<=3 and large-family states on both backends; 28x28 ranges; prefix removal 28 prefixes x 3 predicates"}),
         },
         run,
         replay,
@@ -139,7 +139,7 @@ fn lattice(main: u8) -> Vec<RecordIdentifier> {
         [0xffu8; 32],
     ];
     authors.sort();
-    let keys: [&[u8]; 6] = [b"", b"a", b"a\xff", b"ab", b"b", b"\xff"];
+    let keys: [&[u8]; 7] = [b"", b"a", b"a\xff", b"a\xff\xff", b"ab", b"b", b"\xff"];
     let mut v = vec![];
     for a in &authors {
         for k in keys {
